@@ -31,7 +31,7 @@ def method(db, adt, name, trait=None, kind='assoc_fn'):
 
 
 def own(r, kind='call'):
-    return [e for e in r.events if len(e.stack) == 1 and e.kind == kind]
+    return [e for e in r.events if e.is_own() and e.kind == kind]
 
 
 class K:
@@ -147,7 +147,7 @@ def check_vec(ctx, config, rule):
     if b:
         I, r = k.run(b)
         df = [e for e in own(r) if (e.callee or '').endswith('::drain_filter')]
-        dr = [e for e in r.events if len(e.stack) == 1 and e.kind == 'drop' and 'DrainFilter' in (e.extra.get('ty') or '')]
+        dr = [e for e in r.events if e.is_own() and e.kind == 'drop' and 'DrainFilter' in (e.extra.get('ty') or '')]
         cl = [x for x in db.fn_bodies() if x['kind'] == 'closure' and x['id'].startswith(b['id'] + '::{closure')]
         okc = False
         if cl:
@@ -231,7 +231,7 @@ def check_vec(ctx, config, rule):
     if b:
         I, r = k.run(b)
         ev = own(r)
-        pan = [e for e in r.events if len(e.stack) == 1 and e.kind in ('diverge', 'panic') and 'panic' in (e.callee or '')]
+        pan = [e for e in r.events if e.is_own() and e.kind in ('diverge', 'panic') and 'panic' in (e.callee or '')]
         k.check('RawVec::shrink_to_fit', 'panics exactly when cap < amount', bool(pan) and any(('lt', CAPL, P2) in e.state.facts for e in pan), '', b.get('span'))
         db_ = [e for e in ev if (e.callee or '').endswith('::dealloc_buffer')]
         ni = [e for e in ev if (e.callee or '').endswith('RawVec::<\'a, T>::new_in')]
